@@ -132,7 +132,15 @@ func MonC05(c *MonCtx) {
 			}
 		}
 	}
-	if c.Out.Ev.K == "R_ers" && !hasFault(c.Out.Log) && c.Out.RR.Err == nil {
+	statusStored := false
+	for _, call := range c.Out.Log {
+		if call.Kind == "ExtendedDaemonSetReplicaSet" && call.Sub == "status" && call.IsWrite() && call.Err == nil && call.Fault == "" {
+			statusStored = true
+		}
+	}
+	if c.Out.Ev.K == "R_ers" && statusStored && !strings.HasPrefix(c.Out.Ev.B, "mid:") {
+		// (also when a pod creation / deletion of the same sync failed: what the sync observed on the canary pods is stored
+		// as long as its status write succeeds)
 		// the promotion rule counts from the last canary pod restart as the canary replica set records it: a fault-free
 		// full sync of the canary must record the latest restart among its up-to-date pods (of any of their containers)
 		rns, rname := split(c.Out.Ev.A)
